@@ -168,7 +168,7 @@ impl<V> Signed<V> {
 
 def add_base_types(U):
     """hashes, numbers, View, BlockHeader, Payload, Schedule (stubbed methods), Signed."""
-    U.raw(common.STD_OPTION_COPIED + PRELUDE_CRYPTO, label="prelude crypto")
+    U.raw(common.STD_OPTION_COPIED + common.STD_COMBINATORS + PRELUDE_CRYPTO, label="prelude crypto")
     U.item(F_GEN, "struct GenesisHash", attrs=D_COPY)
     U.item(F_BLOCK, "struct PayloadHash", attrs=D_COPY)
     U.item(F_BLOCK, "struct BlockNumber", attrs=D_COPY)
